@@ -709,3 +709,56 @@ pub fn check_c13_text(text: &str, s: &NormalizerSettings, with_bom: bool) -> (Ve
 fn identify_mark(bytes: &[u8]) -> Option<String> {
     hooks::identify_sig_or_bom(bytes).0
 }
+
+/// C19 at the API level: an input analysed as a single chunk, one encoding probed alone, swept over
+/// language thresholds: the listed languages only shrink, keep their scores, are ordered by
+/// non-increasing score, coherence() is the first score and the most probable language the first element
+pub fn check_c19_detect(bytes: &[u8], s: &NormalizerSettings, enc: &str) -> Vec<Found> {
+    let mut out = vec![];
+    if bytes.is_empty() || s.steps == 0 || s.steps.checked_mul(s.chunk_size).map(|w| bytes.len() > w).unwrap_or(true) {
+        return out;
+    }
+    let mut base: Option<Vec<(&'static charset_normalizer_rs::entity::Language, f32)>> = None;
+    let mut prev: Vec<String> = vec![];
+    for th in [0.0f32, 0.05, 0.1, 0.2, 0.3, 0.5, 0.7, 0.8] {
+        let mut r = restricted(s, enc);
+        r.enable_fallback = false;
+        r.language_threshold = ordered_float::OrderedFloat(th);
+        let ms = match run_real(bytes, &r) {
+            Outcome::Ok(ms) if ms.len() == 1 => ms,
+            _ => return out,
+        };
+        let m = &ms[0];
+        let cur = hooks::coherence_matches(m);
+        for w in cur.windows(2) {
+            if !(w[0].1 >= w[1].1) {
+                out.push(v("C19", format!("{} at language threshold {}: languages not ordered by non-increasing score: {}", enc, th, crate::sig::coh_str(&cur))));
+            }
+        }
+        if let Some((l0, s0)) = cur.first() {
+            if fbits(m.coherence()) != fbits(*s0) || m.most_probably_language() != *l0 {
+                out.push(v("C19", format!("{} at language threshold {}: coherence() / most probable language are not the first listed element", enc, th)));
+            }
+        }
+        match &base {
+            None => base = Some(cur.clone()),
+            Some(b) => {
+                let key = |x: &Vec<(&'static charset_normalizer_rs::entity::Language, f32)>| -> Vec<(String, u32)> {
+                    let mut k: Vec<(String, u32)> = x.iter().map(|(l, sc)| (format!("{:?}", l), fbits(*sc))).collect();
+                    k.sort();
+                    k
+                };
+                let expect: Vec<(&'static charset_normalizer_rs::entity::Language, f32)> = b.iter().filter(|(_, sc)| *sc >= th).cloned().collect();
+                if key(&cur) != key(&expect) {
+                    out.push(v("C19", format!("{}: language threshold {} is not a pure cut-off on a single-chunk input: got {} expected {}", enc, th, crate::sig::coh_str(&cur), crate::sig::coh_str(&expect))));
+                }
+            }
+        }
+        let names: Vec<String> = cur.iter().map(|(l, _)| format!("{:?}", l)).collect();
+        if th > 0.0 && names.iter().any(|n| !prev.contains(n)) {
+            out.push(v("C19", format!("{}: raising the language threshold to {} added a language", enc, th)));
+        }
+        prev = names;
+    }
+    out
+}
